@@ -7,13 +7,16 @@ import vlib
 PID = "C11"
 MANIFEST = dict(
         spec="Dispatch.tla (+MC_Dispatch, Gen_Dispatch, Trace_Dispatch)",
-        text="TLC checks exhaustively over histories of register/replace/unregister/reserve/clear-all/drop/teardown and "
+        text="TLC checks exhaustively over histories of register/replace/unregister/reserve/clear-all/drop/teardown, taking "
+             "and releasing a snapshot handle on the table's buffer (array copy of the public _d member, alive across any of "
+             "these, released before or after teardown) and "
              "emit(id | message | none)/hash dispatch on a small id domain (two ids, one hashed command text, 3 (quick) / 4 "
              "(thorough) registrations, handlers answering flag combinations or an error, with or without clearing ev.id) that "
              "the slot table (ids of emptied slots staying behind, slot reuse, compaction by reserve, typed vs raw buffer) "
              "implements the map id -> handler, that an event reaches exactly the handler registered for its id, else the "
              "fallback, never a finalised one, that every registration sees exactly one end-of-life notification (replace, "
-             "remove, clear, buffer drop, teardown), that the default id follows the Default flag, and that reserved ids are "
+             "remove, clear, buffer drop, teardown -- with a snapshot handle alive as well, whose release adds none unless the "
+             "dispatcher dropped its table to it), that the default id follows the Default flag, and that reserved ids are "
              "new among the live ones and within the width's range.  Every transition of the model's control skeleton is "
              "replayed into mpt_dispatch_*/mpt_command_* (C) and into the mpt++ dispatch class (C++) with one harness handler "
              "that logs (token, end-of-life?, ev->id, message?) and returns what the model chose; seeded histories over 20 ids "
@@ -209,7 +212,7 @@ def gen_histories(ck, n, steps, cxx=False):
             ops = ["set", "set", "set", "settext", "clear", "clear", "emit", "emit", "emit", "emitmsg", "emitnone",
                    "hash", "hash", "seterror", "reserve"]
             if not cxx:
-                ops += ["cmdset", "cmdset", "clearall", "drop", "fini"]
+                ops += ["cmdset", "cmdset", "clearall", "drop", "fini", "snapshot", "dropsnapshot"]
             op = rng.choice(ops)
             if op == "set":
                 tok += 1
@@ -233,6 +236,10 @@ def gen_histories(ck, n, steps, cxx=False):
             elif op in ("clearall", "drop", "fini"):
                 if rng.random() < 0.15:
                     beh.append({"a": op, "arg": {"x": 0}})
+            elif op in ("snapshot", "dropsnapshot"):
+                # a second handle on the table's buffer, alive across whatever follows
+                if rng.random() < 0.4:
+                    beh.append({"a": op, "arg": {"x": 0}})
             elif op == "emit":
                 i = rng.choice(ids + [limbs(k) for k in (1, 2, 3, 4, 5)])
                 beh.append({"a": "emit", "arg": dict(id=i, **hr())})
@@ -248,6 +255,11 @@ def gen_histories(ck, n, steps, cxx=False):
                 beh.append({"a": "hash", "arg": arg})
         if cxx:
             beh.append({"a": "fini", "arg": {"x": 0}})
+        else:
+            # everything released at the end, the snapshot before or after the teardown
+            tail = rng.choice([["fini"], ["snapshot", "fini", "dropsnapshot"], ["fini", "dropsnapshot"],
+                               ["dropsnapshot", "fini"]])
+            beh += [{"a": a, "arg": {"x": 0}} for a in tail]
         behs.append(beh)
     return behs
 
